@@ -1,6 +1,7 @@
 package main
 
 import (
+	"go/token"
 	"fmt"
 	"go/types"
 	"sort"
@@ -448,4 +449,139 @@ func isPageSelectionValue(v ssa.Value) bool {
 		}
 	}
 	return false
+}
+
+// ---------------- C41.R8 / R9 (round 4 seeds C41-H, C41-G) ----------------
+
+// R8: "-" means standard output (or input) everywhere in the command line; it is never looked up in the file system.
+// The overwrite guards of cmd/pdfcpu (functions named ensureOutput…) reach their os.Stat / os.ReadDir on the name only
+// on an edge where the name was compared unequal to "-": otherwise a file that happens to be called "-" in the working
+// directory makes "rotate in.pdf 90 -" refuse to write to standard output while the file invocation works.
+func checkDashNeverAPath(c *Ctx) {
+	p, r := c.P, c.R
+	n := 0
+	for _, fn := range p.Funcs {
+		if !isSubject(fn) || fn.Pkg == nil || !strings.HasSuffix(fn.Pkg.Pkg.Path(), "/cmd/pdfcpu") || !strings.HasPrefix(fn.Name(), "ensureOutput") || len(fn.Params) == 0 {
+			continue
+		}
+		name := fn.Params[0]
+		var notDash []Edge
+		eachInstr(fn, func(_ *ssa.BasicBlock, _ int, i ssa.Instruction) {
+			bo, ok := i.(*ssa.BinOp)
+			if !ok || (bo.Op != token.EQL && bo.Op != token.NEQ) {
+				return
+			}
+			var other ssa.Value
+			switch {
+			case bo.X == ssa.Value(name):
+				other = bo.Y
+			case bo.Y == ssa.Value(name):
+				other = bo.X
+			default:
+				return
+			}
+			if s, ok := constString(other); ok && s == "-" {
+				notDash = append(notDash, condEdges(bo, bo.Op == token.NEQ)...)
+			}
+		})
+		k := 0
+		eachInstr(fn, func(b *ssa.BasicBlock, _ int, i ssa.Instruction) {
+			call, ok := i.(*ssa.Call)
+			if !ok {
+				return
+			}
+			_, ref := callRef(call)
+			if !strings.HasPrefix(ref, "os.") || len(call.Call.Args) == 0 || call.Call.Args[0] != ssa.Value(name) {
+				return
+			}
+			k++
+			n++
+			construct := fmt.Sprintf("%s on the name#%d", ref, k)
+			behind := false
+			for _, e := range notDash {
+				if edgeDominates(e, b) {
+					behind = true
+				}
+			}
+			if behind {
+				r.OK("C41.R8", FuncID(fn), construct, p.Pos(call.Pos()), "only for names other than \"-\"", true)
+			} else {
+				r.Bad("C41.R8", FuncID(fn), construct, p.Pos(call.Pos()), "the overwrite guard looks the name up in the file system although it may be \"-\": with a file called \"-\" in the working directory the stream invocation is refused (\"refusing to overwrite existing file: -\") while the same command with a file name succeeds")
+			}
+		})
+	}
+	if n == 0 {
+		r.Bad("C41.R8", "cmd/pdfcpu", "anchor", "", "UNRESOLVED-ANCHOR: no ensureOutput… guard with a file system lookup found")
+	}
+}
+
+// R9: "no input" is a nil io.ReadSeeker. An interface that holds a nil *os.File is not nil: the API's rs != nil test
+// then takes the "read the PDF" branch and fails with "invalid argument". In pkg/cli no io.ReadSeeker is made from a
+// *os.File value that can be the nil constant (a MakeInterface of *os.File whose operand has a nil leaf) — the stream
+// plumbing assigns the interface only where the file was opened.
+func checkNoTypedNilReader(c *Ctx) {
+	p, r := c.P, c.R
+	n, bad := 0, 0
+	for _, fn := range p.Funcs {
+		if !isSubject(fn) || fn.Pkg == nil || fn.Pkg.Pkg.Path() != modPath+"/pkg/cli" {
+			continue
+		}
+		eachInstr(fn, func(_ *ssa.BasicBlock, _ int, i ssa.Instruction) {
+			mi, ok := i.(*ssa.MakeInterface)
+			if !ok || !strings.HasSuffix(mi.X.Type().String(), "*os.File") {
+				return
+			}
+			it := mi.Type().String()
+			if it != "io.ReadSeeker" && it != "io.Reader" && it != "io.ReaderAt" {
+				return
+			}
+			n++
+			nilLeaf := false
+			for _, l := range valueLeaves(mi.X) {
+				if isNilConst(l) {
+					nilLeaf = true
+				}
+				// the result of a helper that can return a nil file without an error
+				if ex, ok := l.(*ssa.Extract); ok {
+					if call, ok := ex.Tuple.(*ssa.Call); ok {
+						if callee := staticCallee(call); callee != nil && isSubject(callee) {
+							for _, ret := range returnsOf(callee) {
+								if ex.Index < len(ret.Results) && isNilConst(ret.Results[ex.Index]) {
+									if k, ok := returnErrKind(ret); ok && k != errNonNil {
+										nilLeaf = true
+									}
+								}
+							}
+						}
+					}
+				}
+			}
+			if nilLeaf {
+				// guarded: the conversion happens only where the file was compared unequal to nil
+				if mi.X.Referrers() != nil {
+					for _, rf := range *mi.X.Referrers() {
+						bo, ok := rf.(*ssa.BinOp)
+						if !ok || (bo.Op != token.NEQ && bo.Op != token.EQL) || !(isNilConst(bo.X) || isNilConst(bo.Y)) {
+							continue
+						}
+						for _, e := range condEdges(bo, bo.Op == token.NEQ) {
+							if edgeDominates(e, mi.Block()) {
+								nilLeaf = false
+							}
+						}
+					}
+				}
+			}
+			if nilLeaf {
+				bad++
+				r.Bad("C41.R9", FuncID(fn), fmt.Sprintf("reader made from *os.File#%d", n), p.Pos(mi.Pos()), "an io.ReadSeeker is built from a *os.File that can be nil (no input): the interface is then non-nil, the API takes its 'read the input' branch on a nil file and the stream invocation fails with 'invalid argument' while the file invocation works")
+			} else {
+				r.OK("C41.R9", FuncID(fn), fmt.Sprintf("reader made from *os.File#%d", n), p.Pos(mi.Pos()), "the file value has no nil source", true)
+			}
+		})
+	}
+	if n == 0 {
+		r.Bad("C41.R9", "pkg/cli", "anchor", "", "UNRESOLVED-ANCHOR: no reader interface made from *os.File in pkg/cli")
+	}
+	_ = bad
 }
